@@ -18,6 +18,7 @@ import (
 
 	"github.com/smart-core-os/sc-api/go/traits"
 	"google.golang.org/grpc/codes"
+	"google.golang.org/protobuf/proto"
 	"google.golang.org/grpc/status"
 	"google.golang.org/protobuf/encoding/protojson"
 	"google.golang.org/protobuf/types/known/fieldmaskpb"
@@ -248,6 +249,7 @@ type world struct {
 	created []string // ids of modes created with a generated id, in order of creation
 	nUpd    atomic.Int64
 	nSet    atomic.Int64
+	nDel    atomic.Int64
 	// futureStamps: a third of the start times given to SetActiveMode lie after every reading of the model clock
 	// (a schedule entered ahead of time); only used with the manual clock of the sequential part
 	futureStamps bool
@@ -364,11 +366,16 @@ func (w *world) exec(o op, id string) (out outcome) {
 		case "delete":
 			switch o.Door {
 			case "model":
+				var dopts []resource.WriteOption
 				if o.AM {
-					out.Err = w.m.DeleteMode(id, resource.WithAllowMissing(true))
-				} else {
-					out.Err = w.m.DeleteMode(id)
+					dopts = append(dopts, resource.WithAllowMissing(true))
 				}
+				if w.nDel.Add(1)%3 == 0 {
+					// the caller's own (always satisfied) condition on the stored mode: it adds to the model's rules, it does not
+					// replace them
+					dopts = append(dopts, resource.WithExpectedCheck(func(proto.Message) error { return nil }))
+				}
+				out.Err = w.m.DeleteMode(id, dopts...)
 			case "server":
 				_, out.Err = w.srv.DeleteMode(ctx, &electricpb.DeleteModeRequest{Name: devName, Id: id, AllowMissing: o.AM})
 			case "client":
